@@ -5,6 +5,7 @@ package main
 import (
 	"fmt"
 	"hash/maphash"
+	"strings"
 
 	og "github.com/kisielk/og-rek"
 )
@@ -90,6 +91,13 @@ func eqCase(toks []string) string {
 	e := "0"
 	if og.VerifEqual(a, b) {
 		e = "1"
+	}
+	// the same key OBJECT on both sides (one slice, one pointer) must compare as two equal-valued objects do: equality is by value,
+	// element-wise - a tuple holding a NaN is not equal to itself
+	if strings.Join(toks[:i], " ") == strings.Join(toks[i+1:], " ") {
+		if og.VerifEqual(a, a) != og.VerifEqual(a, b) {
+			return "SELF-DIFFERS " + e
+		}
 	}
 	h := "1"
 	for _, s := range seeds {
